@@ -6,6 +6,7 @@ use std::collections::HashMap;
 use std::borrow::Borrow;
 use std::hash::Hash;
 verus! {
+//@include specs/std_extra.rs
 //@include specs/err.rs
 //@include specs/tok.rs
 
